@@ -36,6 +36,8 @@ def _same(a, b):
 
 
 def check(run):
+    from .c06 import depends_on
+    depends_on(run, "C18", {"E4"}, only=lambda rule, inst: "sliding_window" in inst)    # each tracker owns its window (no memoised / module-level array)
     _check_own(run)
     # COPY: a copied window tracker owns its ring buffer and its write position
     from .copylib import copy_protocol
